@@ -98,6 +98,8 @@ def render_stmt(rng, st, files=None):
         return '; ' + st.get('text', 'just a comment')
     if k == 'include':
         return f'#include "{st["name"]}"'
+    if k == 'define':
+        return '#define ' + st['name'] + ('' if 'v' not in st else ' ' + str(st['v']))
     raise ValueError(k)
 
 
